@@ -214,10 +214,10 @@ pub mod codec_b {
     // ------------------------------------------------------------------------------------------
     // the implementation side: real structs <-> field tuples
     // ------------------------------------------------------------------------------------------
-    fn ip(x: u32) -> Ipv4Address {
+    pub fn ip(x: u32) -> Ipv4Address {
         Ipv4Address::new(x.to_be_bytes())
     }
-    fn ipn(a: Ipv4Address) -> u32 {
+    pub fn ipn(a: Ipv4Address) -> u32 {
         u32::from_be_bytes(a.to_bytes())
     }
     fn arp_of(v: &ArpV) -> Option<ArpPacket> {
@@ -418,7 +418,7 @@ pub mod codec_b {
             }
         }
     }
-    fn dec_dhcp(bs: &[u8]) -> Decoded<DhcpV> {
+    pub fn dec_dhcp(bs: &[u8]) -> Decoded<DhcpV> {
         let r = catch(|| {
             let mut it = bs.iter().cloned();
             let r = DhcpMessage::from_bytes(it.by_ref());
@@ -438,7 +438,7 @@ pub mod codec_b {
 
     /// a session that records what is sent through it
     #[derive(Default)]
-    struct Recorder(Mutex<Vec<Vec<u8>>>);
+    pub struct Recorder(pub Mutex<Vec<Vec<u8>>>);
     impl Session for Recorder {
         fn send(&self, message: Message, _machine: Arc<Machine>) -> Result<(), SendError> {
             self.0.lock().unwrap().push(message.to_vec());
